@@ -500,6 +500,29 @@ def per_member_independence(ctx, RULE='R-C03-6'):
                   'what is computed for one member depends on the members before it' % (name, ty[:50], sorted({(e.get('decl') or e['kind']).split('::')[-1] for e in evs})[:5]),
                   ctx.where(v, evs[0]['bb']))
     rep.floor(RULE, 'locals carried across members (accumulators, results, weight RNG)', n, 6)
+    # a second cursor: an iterator created before the loop and advanced by hand inside it stays in step with the members only if it is
+    # advanced exactly once in every iteration -- advanced under a condition on the member (only for seeded ones), member i reads the
+    # entry that belongs to an earlier member
+    from bpsa.terms import ELEM_NEXT
+    lp = ctx.loops(v).get(L)
+    for bb in sorted(blocks):
+        t = v.block[bb]['term']
+        if t['k'] != 'call' or callee_decl(t) not in ELEM_NEXT or bb == getattr(lp, 'driver_bb', None):
+            continue
+        if cfg.loop_of.get(bb, [None])[-1] != L:
+            continue                    # drives an inner loop
+        a0 = t['args'][0] if t['args'] else None
+        if a0 is None or a0.get('k') not in ('copy', 'move'):
+            continue
+        roots = ix.place_roots_value(a0['place'], frozenset())
+        outside = [r for r in roots if r[0] == 'L' and r[1] > v.argc and [d for d in ix.whole_defs(r[1]) if d[0] not in blocks]]
+        if not outside:
+            continue
+        every = ctx.every_iteration(v, lp, bb) if lp is not None else False
+        name = v.local_name(outside[0][1]) or '_%d' % outside[0][1]
+        rep.check(every, RULE, '%s/cursor/%s' % (RULE, name), 'the side cursor `%s` is advanced once in every iteration of the per-proof loop' % name,
+                  'the iterator `%s`, created before the per-proof loop, is advanced inside it only on some paths: the entry a member reads depends on which members came before' % name,
+                  ctx.where(v, bb))
 
 
 def run(ctx):
